@@ -97,12 +97,12 @@ def pending : Thread → Char × Char
     | .cL | .dInfL | .pollL _ | .finL _ | .sFlagL | .sChkL | .jL | .p5L | .rsL | .stL | .kL => ('L', 'm')
     | .p4CfgL => ('L', 'c')
     | .cC | .mSpawn _ | .mSpawnCtl _ | .kC => ('C', '-')
-    | .cU | .dInfU | .pollU _ | .finU _ | .sFlagUA | .sFlagU | .sChkU | .jU _ | .jUnone | .p5U | .rsU | .stU | .kU => ('U', 'm')
+    | .cU | .dInfU | .pollU _ | .finU _ | .sFlagUA _ | .sFlagU | .sChkU | .jU _ | .jUnone | .p5U | .rsU | .stU | .kU => ('U', 'm')
     | .p4CfgU => ('U', 'c')
     | .sBcast => ('B', 'v')
     | .jDetach _ => ('D', '-')
     | .mJoin | .jJoin _ => ('J', '-')
-    | .pollZ _ | .sGrace | .p2Z | .p2Grace | .sDoneZ => ('Z', '-')
+    | .pollZ _ | .sGrace | .p2Z | .p2Grace | .sDoneZ _ => ('Z', '-')
     | .done => ('-', '-')
 
 /-- the harness tag expected at a yield -/
